@@ -987,7 +987,7 @@ fn gen_slider_content(rng: &mut Rng) -> (Vec<u8>, Vec<String>) {
                 path.push('|');
             }
             path.push_str(ty);
-            let pts = if rng.chance(0.08) { 40 + rng.usize(if cfg!(miri) { 40 } else { 400 }) } else { 1 + rng.usize(4) };
+            let pts = if rng.chance(0.08) { if cfg!(miri) { 12 + rng.usize(20) } else { 40 + rng.usize(400) } } else { 1 + rng.usize(4) };
             let (mut px, mut py) = (x, y);
             for _ in 0..pts {
                 if rng.chance(0.2) {
@@ -1058,6 +1058,20 @@ impl Engine for C11DecodeEngine {
         }
     }
     fn exec(case: &IoCase, stats: &mut Stats) -> Option<Violation> {
+        if cfg!(miri) {
+            // Miri is the monitor here: one reference decode and one decode through the faulty
+            // reader are enough; the compositional oracles run natively at scale.
+            for f in &case.storage_faults {
+                stats.fault(&format!("storage_{}", f.split(':').next().unwrap_or(f)));
+            }
+            let reference = match guard(|| Beatmap::from_bytes(&case.content)) {
+                Ok(r) => r,
+                Err(p) => return Some(Violation::new(format!("C11/decode/panic-in-from_bytes@{}", panic_site(&p)), p)),
+            };
+            stats.ops += 2;
+            return check_plan(&case.content, &reference, &case.plan, stats)
+                .map(|v| Violation::new(v.key.replace("C06/", "C11/decode/"), v.detail));
+        }
         let prev = crate::seams::set_alloc_junk_get(0xA5);
         let r = exec(case, stats);
         crate::seams::set_alloc_junk(prev);
